@@ -99,14 +99,22 @@ def _r111(ck, prog, cfg):
     ck.check(good, "R11.1", "recover_entries_after:examines-every-entry" + _tag(cfg),
              "recover_entries_after does not examine every WAL entry (%s): with interleaved shard clocks an entry after the cut with an "
              "older stamp, or before it with a newer one, is mis-filtered" % why, g.where(), detail="for entry in all entries { if ts >= t }")
-    cmps = [st for b, i, st in g.stmts() if st["rv"]["k"] == "bin" and st["rv"]["op"] in ("Ge", "Gt", "Le", "Lt")]
+    # the comparison may sit in the loop body or in a filter closure (captured threshold)
+    cmps = [(h, st) for h in prog.with_children(g) for b, i, st in h.stmts() if st["rv"]["k"] == "bin" and st["rv"]["op"] in ("Ge", "Gt", "Le", "Lt")]
     okc = False
-    for st in cmps:
-        a, b2 = src_of_operand(g, st["rv"]["a"]), src_of_operand(g, st["rv"]["b"])
-        if st["rv"]["op"] == "Ge" and a.fields[-1:] == ("timestamp",) and b2.kind == "path" and b2.root == "after_timestamp":
+    bad_cmp = False
+
+    def _thr(x):
+        return x.kind == "path" and ((x.root or "") == "after_timestamp" or "after_timestamp" in (x.root or "") or "after_timestamp" in x.fields)
+    for h, st in cmps:
+        a, b2 = src_of_operand(h, st["rv"]["a"], through_calls=TRANSPARENT), src_of_operand(h, st["rv"]["b"], through_calls=TRANSPARENT)
+        if st["rv"]["op"] == "Ge" and a.fields[-1:] == ("timestamp",) and _thr(b2):
             okc = True
-        if st["rv"]["op"] == "Le" and b2.fields[-1:] == ("timestamp",) and a.kind == "path" and a.root == "after_timestamp":
+        elif st["rv"]["op"] == "Le" and b2.fields[-1:] == ("timestamp",) and _thr(a):
             okc = True
+        elif (_thr(a) and b2.fields[-1:] == ("timestamp",)) or (_thr(b2) and a.fields[-1:] == ("timestamp",)):
+            bad_cmp = True
+    okc = okc and not bad_cmp
     ck.check(okc, "R11.1", "recover_entries_after:comparator" + _tag(cfg),
              "the per-entry filter is not `entry.timestamp >= after_timestamp` (strictness matters: equal stamps are legal)", g.where(),
              detail="timestamp >= threshold")
